@@ -8,6 +8,7 @@ import Lomond.Model.Frame
 import Lomond.Model.Http
 import Lomond.Model.Core
 import Lomond.Model.Persist
+import Lomond.Model.Threads
 import Lomond.Model.Inflate
 import Lomond.Model.Connect
 import Lomond.Model.Handshake
@@ -418,9 +419,137 @@ def runDeflateOpts (args : List String) : String :=
      | .ok d => "ok " ++ toString d.decompressWbits ++ " " ++ toString d.compressWbits ++ " " ++
                 b2s d.resetDecompress ++ " " ++ b2s d.resetCompress)
 
+/-! ### C11 / C12: `threads v=<cu><ca> z=<0|1|2> | <prog> / <prog> ... | <schedule digits>` -/
+
+namespace Thr
+open Lomond.Threads
+
+def parseCall (tok : String) : Option Call :=
+  if tok = "tk" then some .autoPing
+  else
+    match tok.splitOn "=" with
+    | [h, a] =>
+      let codeReason : Option (Option Nat × Bytes) :=
+        match a.splitOn "," with
+        | [c, r] => some (if c = "N" then none else some (natOf c), hexD r)
+        | _ => none
+      if h = "st1" then some (.sendText (hexD a) true)
+      else if h = "st0" then some (.sendText (hexD a) false)
+      else if h = "sb1" then some (.sendBinary (hexD a) true)
+      else if h = "sb0" then some (.sendBinary (hexD a) false)
+      else if h = "pi" then some (.sendPing (hexD a))
+      else if h = "po" then some (.sendPong (hexD a))
+      else if h = "cl" then codeReason.map (fun p => .close p.1 p.2)
+      else if h = "rc" then codeReason.map (fun p => .onClose p.1 p.2)
+      else if h = "rp" then some (.onPing (hexD a))
+      else none
+    | _ => none
+
+def parseProgs (s : String) : List (List Call) :=
+  (s.splitOn " / ").map fun p => ((p.splitOn " ").filter (· ≠ "")).filterMap parseCall
+
+def parseSched (s : String) : List Tid :=
+  s.toList.filterMap fun c => if c.isDigit then some (c.toNat - 48) else none
+
+def kindName : Step → String
+  | .rdSock => "rd:sock" | .chkSock => "rd:sock"
+  | .rdClosed => "rd:closed" | .retIfClosed => "rd:closed" | .chkClosed => "rd:closed"
+  | .retIfClosing => "rd:closing" | .chkClosing => "rd:closing" | .brIfClosing _ => "rd:closing"
+  | .compress _ => "z:compress" | .flush => "z:flush" | .zreset => "z:reset"
+  | .acquire => "acq" | .release => "rel"
+  | .write1 _ => "w1" | .write2 _ => "w2"
+  | .setClosing b => "wr:closing=" ++ b2s b
+  | .setClosed => "wr:closed=1"
+  | .setCloseTime => "wr:sent_close_time"
+  | .sockClose => "sockclose"
+  | .setSockNone => "wr:sock"
+
+/-- what entry `t` is going to do in state `s` -/
+def entryName (v : Threads.Variant) (cfg : Threads.Cfg) (s : State) (t : Tid) : String :=
+  match (s.th t).current v cfg with
+  | none => "idle"
+  | some c =>
+    match c.rest with
+    | [] => "idle"
+    | st :: _ => if blockedOn s.sh c then "blocked" else kindName st
+
+def traceOf (v : Threads.Variant) (cfg : Threads.Cfg) : State → List Tid → List String
+  | _, [] => []
+  | s, t :: r => ("x" ++ toString t ++ ":" ++ entryName v cfg s t) :: traceOf v cfg (step v cfg s t) r
+
+def errName : Err → String
+  | .unavailable => "WebSocketUnavailable" | .closed => "WebSocketClosed" | .closing => "WebSocketClosing"
+
+def resultName (c : Call) (r : Result) : String :=
+  let w := if r.wrote then ":w" else ":-"
+  match c with
+  | .close _ _ => "ok" ++ w
+  | .onPing _ => "ping" ++ w
+  | .onClose _ _ => (if r.alt then "closed+disconnected" else "closing") ++ w
+  | .autoPing => "poll" ++ w
+  | _ => (match r.err with | none => "ok" | some e => errName e) ++ w
+
+def showChunk (cfg : Threads.Cfg) (c : Chunk) : String :=
+  "W" ++ toString c.tid ++ "." ++ toString c.idx ++ (if c.second then "b" else "a") ++ ":" ++
+    (if isCompressed c.desc.pay then "z" else hexOfBytes (chunkBytes cfg c))
+
+def showZFrame (c : Chunk) : Option String :=
+  match c.desc.pay with
+  | .plain _ => none
+  | .deflated ctx out =>
+    some ("F" ++ toString c.tid ++ "." ++ toString c.idx ++ ":" ++ toString c.desc.op ++ ":" ++ hexOfBytes ctx ++ ":" ++ hexOfBytes out)
+
+def parseCfg (cfgS : String) : Threads.Variant × Threads.Cfg :=
+  let ct := cfgS.splitOn " "
+  let vs := kv ct "v" "00"
+  let z := kv ct "z" "0"
+  ({ compressUnderLock := (vs.toList.getD 0 '0') == '1', closeAtomic := (vs.toList.getD 1 '0') == '1' },
+   { deflate := z ≠ "0", noTakeover := z = "2", key := fun t i => testKey (t * 16 + i) })
+
+def runThreads (line : String) : String :=
+  match line.splitOn " | " with
+  | [cfgS, progS, schedS] =>
+    let (v, cfg) := parseCfg cfgS
+    let ps := parseProgs progS
+    let sched := parseSched schedS
+    let s0 := init (progsOf ps)
+    let s := run v cfg s0 sched
+    let tr := traceOf v cfg s0 sched
+    let res : List String := (List.range ps.length).flatMap fun t =>
+      let th := s.th t
+      (th.results.zipIdx).map fun (r, i) =>
+        "R" ++ toString t ++ "." ++ toString i ++ ":" ++ resultName ((ps.getD t []).getD i .autoPing) r
+    let w := s.sh.wire
+    let peer := match peerDecode cfg.noTakeover [] (frames w) with
+      | none => "fail"
+      | some ms => if ms.all (fun m => ((ps.getD m.1 []).getD m.2.1 .autoPing).msg == m.2.2) then "ok" else "wrong"
+    " ".intercalate (tr ++ w.map (showChunk cfg) ++ (frames w).filterMap showZFrame ++ res ++
+      ["END:closing=" ++ b2s s.sh.closing ++ ":closed=" ++ b2s s.sh.closed ++ ":sock=" ++ b2s s.sh.sockOpen ++
+       ":shut=" ++ b2s s.sh.sockShut ++
+       ":lock=" ++ (match s.sh.lock with | none => "-" | some t => toString t) ++
+       ":whole=" ++ b2s (wholeFrames w) ++ ":closes=" ++ toString (closeCount w) ++
+       ":after=" ++ b2s (!nothingAfterClose w) ++ ":peer=" ++ peer])
+  | _ => "bad-op"
+
+/-- `threads-enum v=.. z=.. pb=<n|-> | <progs>`: every maximal schedule of enabled steps -/
+def runEnum (line : String) : String :=
+  match line.splitOn " | " with
+  | [cfgS, progS] =>
+    let (v, cfg) := parseCfg cfgS
+    let ps := parseProgs progS
+    let pbS := kv (cfgS.splitOn " ") "pb" "-"
+    let pb := if pbS = "-" then 1000000 else natOf pbS
+    let scheds := enumerate v cfg ps.length 400 (init (progsOf ps)) none pb
+    " ".intercalate (scheds.map fun sc => String.join (sc.map toString))
+  | _ => "bad-op"
+
+end Thr
+
 def handle (line : String) : String :=
   if line.startsWith "core " then runCore (line.drop 5).toString
   else if line.startsWith "persist " then runPersist (line.drop 8).toString
+  else if line.startsWith "threads-enum " then Thr.runEnum (line.drop 13).toString
+  else if line.startsWith "threads " then Thr.runThreads (line.drop 8).toString
   else if line.startsWith "connect " then runConnect (line.drop 8).toString
   else if line.startsWith "proxy " then runProxy (line.drop 6).toString
   else if line.startsWith "xport " then runXport (line.drop 6).toString
